@@ -1,6 +1,7 @@
 import EmmetProofs.MathLex
 import EmmetProofs.QRat
 import EmmetProofs.MathTotal
+import EmmetProofs.MathExtractSpec
 /-! # C19 — math expressions evaluate to their arithmetic value (exact clause)
 
 `Sx` = syntax trees of the expression language *with their blanks*: literals `12`, `1.5`, `.5`, parentheses, unary minus and
@@ -33,6 +34,22 @@ theorem C19_total (s : Str) : match evaluate s with | .ok _ => True | .error e =
 
 example : (match evaluate ("1+()(2)(3)".toList.map Char.toNat) with | .error (.math p) => p | _ => 0) = 5 := by decide +kernel
 example : (match evaluate ("1/(2-2)".toList.map Char.toNat) with | .error .zeroDiv => true | _ => false) = true := by decide +kernel
+
+/-- `extract()`, for EVERY text, EVERY position inside it and every option set (look-ahead on / off, white space allowed or not):
+the result is nothing, or a range `start ≤ end ≤ |text|` that ends at the look-ahead adjusted position (`lookEnd`: the position,
+moved across `)` and white space when the character at the position is `)`), whose characters are digits, dots, the five
+operators, parentheses and — only when allowed — white space, and whose parentheses are balanced (`Balanced`: as many `(` as
+`)`, no prefix closes more than it opened). -/
+theorem C19_extract (text : Str) (pos : Nat) (la ws : Bool) (hpos : pos ≤ text.length) :
+    match extract text pos la ws with
+    | none => True
+    | some (s, e) => s ≤ e ∧ e ≤ text.length ∧ e = lookEnd text pos la ws ∧
+        (∀ c ∈ (text.drop s).take (e - s), exAllowed ws c = true) ∧ Balanced ((text.drop s).take (e - s)) :=
+  M.extract_spec text pos la ws hpos
+
+example : extract ("a = (1+2) * 3".toList.map Char.toNat) 13 true true = some (4, 13) := by decide +kernel
+example : extract ("x (1 + 2".toList.map Char.toNat) 8 true true = some (3, 8) := by decide +kernel
+example : extract ("f(2*(3".toList.map Char.toNat) 6 true true = some (5, 6) := by decide +kernel
 
 /-- non-vacuity: six divided by minus two (the input that raised IndexError before the repair) is a well-formed, well-grouped tree and evaluates to -3 -/
 def ex1 : Sx := .bin 47 [] (.num [] [54] []) (.neg [] (.num [] [50] []))
